@@ -14,12 +14,15 @@ FIX = dict(FixA=True, FixH=True, OrdCurrent="Acquire")
 # ---------------------------------------------------------------------------------------------------
 C_BASE = dict(NT=2, SrcLen=3, Start=0, Kind="slice", MaxOps=2, OwnerOps=0, Sizes={1, 2, 4}, TakeSet={9},
               OpKinds={"next", "nextid", "chunk", "bnew", "bnext"}, MOD=64, Mutant="")
-T_BASE = dict(NT=2, SrcLen=2, Hint="exact", PanicAt=0, MaxOps=2, OwnerOps=0, Sizes={1, 2, 3}, TakeSet={9},
+T_BASE = dict(NT=2, SrcLen=2, Hint="exact", PanicAt=0, Revive=0, MaxOps=2, OwnerOps=0, Sizes={1, 2, 3}, TakeSet={9},
               OpKinds={"next", "nextid", "chunk", "bnew", "bnext"}, MOD=64, Mutant="", **FIX)
 C_INV = ["Inv_C01", "Inv_C02", "Inv_C03", "Inv_C04", "Inv_C05", "Inv_C06", "Inv_C08", "Inv_C10", "Inv_C11", "Inv_C12",
          "Inv_C19", "Inv_NoWrap", "Inv_C09_LockFree", "NoFlags"]
 T_INV = ["Inv_C01", "Inv_C02", "Inv_C03", "Inv_C04", "Inv_C05", "Inv_C06", "Inv_C07_NoRace", "Inv_C07_Mutex", "Inv_C08",
          "Inv_C10", "Inv_C11", "Inv_C12", "Inv_C17", "Inv_TicketIsPosition", "Inv_NoWrap", "NoFlags"]
+# non-fused sources: positions and indices of the late elements are not meaningful; what must hold is that
+# nothing is delivered to a pull that starts after an end report, mutual exclusion and progress
+T_REVIVE_INV = ["Inv_C05", "Inv_C07_NoRace", "Inv_C07_Mutex", "Inv_C17"]
 
 
 def cfg(base, **kw):
@@ -51,6 +54,7 @@ E1 = {
                                    OpKinds={"next", "chunk", "skip", "intoseq", "hasmore"}), T_INV, True),
     "ticket_panic1": ("Ticket", cfg(T_BASE, PanicAt=1, Sizes={2}, OpKinds={"next", "chunk", "bnew", "bnext"}), T_INV, True),
     "ticket_panic2": ("Ticket", cfg(T_BASE, PanicAt=2, Sizes={2}, OpKinds={"next", "chunk", "foreach"}), T_INV, True),
+    "ticket_revive": ("Ticket", cfg(T_BASE, Revive=1, SrcLen=1, Sizes={2}, OpKinds={"next", "chunk", "bnew", "bnext", "hasmore"}), T_REVIVE_INV, True),
     "ticket_3t": ("Ticket", cfg(T_BASE, NT=3, MaxOps=1, SrcLen=2, Sizes={2}, OpKinds={"next", "chunk", "skip"}), T_INV, True),
 }
 
@@ -73,6 +77,7 @@ E1_NEGATIVE = {
     "neg_relaxed": ("Ticket", cfg(T_BASE, OrdCurrent="Relaxed"), T_INV, True),
     "neg_skipmax": ("Ticket", cfg(T_BASE, FixA=False, MaxOps=3, Sizes={2}, OpKinds={"next", "chunk", "skip", "hasmore"}), T_INV, True),
     "neg_panic": ("Ticket", cfg(T_BASE, FixH=False, PanicAt=1, Sizes={2}, OpKinds={"next", "chunk"}), T_INV, True),
+    "neg_revive": ("Ticket", cfg(T_BASE, Revive=1, SrcLen=1, Sizes={2}, Mutant="short_chunk_no_completed", OpKinds={"next", "chunk", "bnew", "bnext"}), T_REVIVE_INV, True),
     "neg_publish": ("Ticket", cfg(T_BASE, Mutant="publish_actual", SrcLen=1, Sizes={2}, OpKinds={"next", "chunk"}), T_INV, True),
     "neg_serve": ("Ticket", cfg(T_BASE, Mutant="serve_less", Sizes={2}, OpKinds={"next", "chunk"}), T_INV, True),
 }
@@ -161,6 +166,15 @@ def rand_suite(tier, seed, sid0):
                 sc = gen.composite(rng, sid, kind)
                 sc["tag"] = {"suite": "comp"}
             out.append(sc)
+    # non-fused wrapped iterators: after its first None the source yields further items
+    for j in range(per):
+        sid = sid0 + len(out)
+        sc = gen.concurrent(rng, sid, "iter", hint=rng.choice(["exact", "inexact", "unbounded"])) if j % 2 else gen.sequential(rng, sid, "iter", p_skip=0.05)
+        sc["revive"] = rng.choice([1, 2])
+        if sc.get("hint") == "inexact" and sc["len"] == 0:
+            sc["hint"] = "exact"
+        sc["tag"] = {"suite": "revive"}
+        out.append(sc)
     return out, {"replayed": len(out)}
 
 
@@ -188,6 +202,15 @@ def panic_suite(tier, seed, sid0):
                                          "panic_at": k}] + sc["threads"][t][:1]
                     sc["tag"] = {"suite": "panic_closure", "k": k}
                     out.append(sc)
+    # a destructor of an element panics while the machinery drops it (consuming kinds)
+    for kind in ["vec", "array", "iter"]:
+        for ln in (2, 3, 4):
+            for _ in range(reps * 2):
+                sc = gen.sequential(rng, sid0 + len(out), kind, ln=ln, p_skip=0.0) if rng.random() < 0.6 else \
+                    gen.concurrent(rng, sid0 + len(out), kind, ln=ln, hint="exact")
+                sc["drop_panic"] = 100 + rng.randrange(0, ln)
+                sc["tag"] = {"suite": "panic_drop"}
+                out.append(sc)
     return out, {"replayed": len(out)}
 
 
@@ -253,3 +276,82 @@ def twin_suite(tier, seed, sid0):
             a.append(sc)
             b.append(sc2)
     return (a, b), {"replayed": len(a) * 2}
+
+
+def boundary_suite(tier, seed, sid0):
+    """C16: scripts over the boundary domain enumerated by TLC from spec/Boundary.tla (range bounds in
+    {0,1,2,3, 2^63-2..2^63+2, MAX-3..MAX} squared; chunk sizes {0,1,len-1,len,len+1,2^63-1,MAX-2,MAX}),
+    executed sequentially on every kind."""
+    rng = random.Random(seed * 17 + 3)
+    gr = generate("bnd_range", "Boundary", {"MaxLen": 2 if tier == "quick" else 3, "Family": "range"}, "all", spec="BSpec", timeout=1500)
+    gs = generate("bnd_sized", "Boundary", {"MaxLen": 3, "Family": "sized"}, "all", spec="BSpec", timeout=1500)
+    out = []
+    nr = 2500 if tier == "quick" else 60000
+    ns = 2500 if tier == "quick" else 60000
+    br = gr["behaviours"]
+    bs = gs["behaviours"]
+    rng.shuffle(br)
+    rng.shuffle(bs)
+
+    def steps(ops):
+        st = []
+        for o in ops:
+            x = {"op": o["k"]}
+            if o["k"] in ("chunk", "bnew", "foreach", "eforeach", "fold"):
+                x["n"] = o["n"]
+            if o["take"] >= 0:
+                x["take"] = o["take"]
+            st.append(x)
+        return st
+    for i, b in enumerate(br[:nr]):
+        out.append({"id": sid0 + len(out), "kind": "range" if i % 4 else "rangeref", "len": 0, "start": b["start"], "end": b["end"],
+                    "threads": [], "pre": steps(b["ops"]), "tag": {"suite": "boundary_range"}})
+    kinds = ["slice", "vec", "array", "iter", "cloned_slice", "copied_slice", "refiter", "vecref"]
+    for i, b in enumerate(bs[:ns]):
+        kind = kinds[i % len(kinds)]
+        if kind in ("iter", "refiter") and any(o["k"] == "bnew" and o["n"] > 4096 for o in b["ops"]):
+            kind = "vec"          # buffered pulls on wrapped iterators allocate chunk_size slots (documented): sizes <= 4096 only
+        out.append({"id": sid0 + len(out), "kind": kind, "len": b["len"], "hint": "exact",
+                    "threads": [], "pre": steps(b["ops"]), "tag": {"suite": "boundary_sized"}})
+    meta = {"range_scripts": len(br), "sized_scripts": len(bs), "replayed": len(out),
+            "exhaustive_export": gr["exhaustive"] and gs["exhaustive"], "states": gr["states"] + gs["states"]}
+    return out, meta
+
+
+def lowlevel_suite(tier, seed, sid0):
+    """C14, dynamic clause: sequences of SAFE public calls including the low-level ones of the public trait
+    `AtomicIter` (get, fetch_n, progress_and_get_begin_idx, counter().store) on the consuming kinds."""
+    rng = random.Random(seed * 211 + 7)
+    out = []
+    reps = 40 if tier == "quick" else 800
+    for kind in ["vec", "array", "iter", "slice", "range"]:
+        for _ in range(reps):
+            ln = rng.choice([1, 2, 3, 4])
+            ops = []
+            for _ in range(rng.randrange(1, 5)):
+                r = rng.random()
+                if r < 0.3:
+                    ops.append({"op": "get", "n": rng.randrange(0, ln + 1)})
+                elif r < 0.45:
+                    ops.append({"op": "fetchn", "n": rng.randrange(0, ln + 2)})
+                elif r < 0.6:
+                    ops.append({"op": "pagbi", "n": rng.randrange(0, 3)})
+                elif r < 0.75:
+                    ops.append({"op": "cstore", "n": rng.randrange(0, ln + 2)})
+                else:
+                    ops += gen.pull_op(rng, ln, allow_comp=False)
+            out.append({"id": sid0 + len(out), "kind": kind, "len": ln, "hint": "exact", "threads": [], "pre": ops,
+                        "post": [{"op": rng.choice(["drop", "intoseq"])}], "tag": {"suite": "lowlevel"}})
+    return out, {"replayed": len(out)}
+
+
+def multi_suite(tier, seed, sid0):
+    rng = random.Random(seed * 401 + 19)
+    out = []
+    reps = 250 if tier == "quick" else 5000
+    for kind in ["slice", "vecref", "arrref", "range", "rangeref", "numslice"]:
+        for _ in range(reps):
+            sc = gen.multi(rng, sid0 + len(out), kind)
+            sc["tag"] = {"suite": "multi"}
+            out.append(sc)
+    return out, {"replayed": len(out)}
